@@ -1051,6 +1051,7 @@ func (c *Check) focusOnce() {
 		}
 	}
 	var focusCalls []*ssa.Call
+	viaHelper := map[*ssa.Call]effSite{}
 	var newCall *ssa.Call
 	// applyFocus may be called directly or through a local closure / helper
 	for _, es := range effectiveSites(f, func(ins ssa.Instruction) bool {
@@ -1059,6 +1060,9 @@ func (c *Check) focusOnce() {
 	}, 2) {
 		if call, ok := es.at.(*ssa.Call); ok {
 			focusCalls = append(focusCalls, call)
+			if es.via != nil {
+				viaHelper[call] = es
+			}
 		}
 	}
 	for _, b := range f.Blocks {
@@ -1093,12 +1097,39 @@ func (c *Check) focusOnce() {
 			}
 			return 0
 		}
-		reach := reachUnder(f, assume)
+		reach, eval := reachUnderEval(f, assume)
 		var reached []*ssa.Call
 		for _, fc := range focusCalls {
-			if reach[fc.Block()] {
-				reached = append(reached, fc)
+			if !reach[fc.Block()] {
+				continue
 			}
+			// focus applied by a helper that is told whether to apply it: decide the helper's own
+			// tests with the boolean arguments of this call evaluated under the assumption
+			if es, ok := viaHelper[fc]; ok && es.via == fc.Call.StaticCallee() && len(es.via.Params) == len(fc.Call.Args) {
+				known := map[ssa.Value]int{}
+				for i, a := range fc.Call.Args {
+					if bt, ok := a.Type().Underlying().(*types.Basic); ok && bt.Kind() == types.Bool {
+						if d := eval(a); d != 0 {
+							known[es.via.Params[i]] = d
+						} else if d := assume(a); d != 0 {
+							known[es.via.Params[i]] = d
+						}
+					}
+				}
+				hreach := reachUnder(es.via, func(cond ssa.Value) int {
+					if d, ok := known[cond]; ok {
+						return d
+					}
+					if u, ok := cond.(*ssa.UnOp); ok && u.Op == token.NOT {
+						return -known[u.X]
+					}
+					return 0
+				})
+				if !hreach[es.actual.Block()] {
+					continue
+				}
+			}
+			reached = append(reached, fc)
 		}
 		if len(reached) != 1 {
 			c.bad("C06-R3", key, c.P.relFile(f.Pos()), fmt.Sprintf("with relative_percentages=%v, %d applyFocus call sites are reachable in generateRawReport (expected exactly one)", rel, len(reached)))
